@@ -37,7 +37,7 @@ def close(a, b, tol=1e-9, atol=0.0, scale=None):
 
 
 class Ob:
-    __slots__ = ('name', 'exact', 'robust', 'trigger', 'info', 'eqdata')
+    __slots__ = ('name', 'exact', 'robust', 'trigger', 'info', 'eqdata', 'prefer_robust')
 
     def __init__(self, name, exact, robust=None, trigger=None, info=None, eqdata=None):
         self.name = name
@@ -46,10 +46,15 @@ class Ob:
         self.trigger = trigger
         self.info = info
         self.eqdata = eqdata
+        self.prefer_robust = False
 
     @property
     def family(self):
         return self.name.split('[')[0]
+
+    def first(self):
+        """formula tried first (exact unless the obligation is known to hold only up to rounding)"""
+        return self.formula(robust=self.prefer_robust)
 
     def formula(self, robust=False, loosen=1):
         if robust and self.eqdata is not None and loosen != 1:
@@ -62,9 +67,11 @@ class Ob:
         return f
 
 
-def eq(name, a, b, tol=1e-9, atol=0.0, trigger=None, info=None, scale=None):
+def eq(name, a, b, tol=1e-9, atol=0.0, trigger=None, info=None, scale=None, prefer_robust=False):
     a, b = T(a), T(b)
-    return Ob(name, a == b, close(a, b, tol, atol, scale), trigger, info, eqdata=(a, b, tol, atol, scale))
+    o = Ob(name, a == b, close(a, b, tol, atol, scale), trigger, info, eqdata=(a, b, tol, atol, scale))
+    o.prefer_robust = prefer_robust
+    return o
 
 
 def holds(name, cond, trigger=None, info=None):
